@@ -128,7 +128,9 @@ class Check:
             st.setdefault(sub, {})["dino"] = rng.choice(pool_all) if pool_all else 777
             plan["stat"] = st
         return {"world": world, "roots": roots, "plan": plan, "order_class": cls, "multidev": multidev, "cwd": cwd,
-                "cwd_default": single_default, "select_word": rng.choice(["select ", ""])}
+                "cwd_default": single_default, "select_word": rng.choice(["select ", ""]),
+                # sometimes an attribute column rides along (its per-entry cache must not leak into the walk)
+                "extra_col": rng.choice(["", "", "", "size", "is_dir", "mode", "is_empty"])}
 
     def sample_view(self, case):
         c = dict(case)
@@ -136,6 +138,10 @@ class Check:
         return c
 
     def shrinks(self, case):
+        if case.get("extra_col"):
+            c = copy.deepcopy(case)
+            c["extra_col"] = ""
+            yield c
         for i, r in enumerate(case["roots"]):
             if len(case["roots"]) > 1:
                 c = copy.deepcopy(case)
@@ -173,7 +179,7 @@ class Check:
             if r.get("ign"):
                 s += " " + r["ign"]
             parts.append(s)
-        q = case.get("select_word", "") + "path"
+        q = case.get("select_word", "") + "path" + ((", " + case["extra_col"]) if case.get("extra_col") else "")
         if parts:
             q += " from " + ", ".join(parts)
         return q + " into list"
@@ -218,7 +224,7 @@ class Check:
                     continue
                 q = self.query(case, sb.root, flip)
                 res = sb.run([q], plan=case["plan"], cwd=cwd)
-                rows = [r[0] for r in res.rows(1)]
+                rows = [r[0] for r in res.rows(2 if case.get("extra_col") else 1)]
                 if len(ctx.samples) < 2:
                     ctx.samples.append({"argv": [q], "cwd": cwd, "outcome": res.summary(), "rows": len(rows)})
                 # expected rows
